@@ -130,6 +130,10 @@ struct PlanDataT<
 	HFSM2_CONSTEXPR(14)	void verifyPlans()							  const noexcept;
 	HFSM2_CONSTEXPR(14)	Long verifyPlan(const RegionID stateId)		  const noexcept;
 #endif
+
+#ifdef HFSM2_VERIF
+	HFSM2_CONSTEXPR(11)	int empty()									  const noexcept	{ return 0; }
+#endif
 };
 
 //------------------------------------------------------------------------------
@@ -196,6 +200,10 @@ struct PlanDataT<
 	HFSM2_CONSTEXPR(14)	void verifyPlans()							  const noexcept;
 	HFSM2_CONSTEXPR(14)	Long verifyPlan(const RegionID stateId)		  const noexcept;
 #endif
+
+#ifdef HFSM2_VERIF
+	HFSM2_CONSTEXPR(11)	int empty()									  const noexcept	{ return 0; }
+#endif
 };
 
 //------------------------------------------------------------------------------
@@ -234,6 +242,10 @@ struct PlanDataT<
 #if HFSM2_ASSERT_AVAILABLE()
 	HFSM2_CONSTEXPR(14)	void verifyPlans()							  const noexcept	{}
 #endif
+
+#ifdef HFSM2_VERIF
+	HFSM2_CONSTEXPR(11)	int empty()									  const noexcept	{ return 0; }
+#endif
 };
 
 //------------------------------------------------------------------------------
@@ -270,6 +282,10 @@ struct PlanDataT<
 
 #if HFSM2_ASSERT_AVAILABLE()
 	HFSM2_CONSTEXPR(14)	void verifyPlans()							  const noexcept	{}
+#endif
+
+#ifdef HFSM2_VERIF
+	HFSM2_CONSTEXPR(11)	int empty()									  const noexcept	{ return 0; }
 #endif
 };
 
